@@ -24,6 +24,7 @@ type Monitor struct {
 	lastExec map[int]uint64       // token -> highest batch nonce executed externally (as told by the claims)
 	maxH     uint64               // highest external height carried by an observed event
 	imported bool                 // a genesis export/import happened in this history
+	evm      map[uint64]bool      // transfer ids created through the crossChain precompile with an ERC-20 token
 	fails    []monFail
 }
 
@@ -40,7 +41,7 @@ type batchInfo struct {
 type monFail struct{ sig, what string }
 
 func NewMonitor(w *World) *Monitor {
-	return &Monitor{w: w, created: map[uint64]*txInfo{}, calls: map[uint64]*callInfo{}, batchTO: map[uint64]batchInfo{}, lastExec: map[int]uint64{}}
+	return &Monitor{w: w, created: map[uint64]*txInfo{}, calls: map[uint64]*callInfo{}, batchTO: map[uint64]batchInfo{}, lastExec: map[int]uint64{}, evm: map[uint64]bool{}}
 }
 
 func (m *Monitor) fail(sig, format string, a ...interface{}) {
@@ -53,7 +54,7 @@ func sameTx(a, b Tx, ignoreFee bool) bool {
 
 func (m *Monitor) balDelta(prev, cur Snap, acct, tok, which int) *big.Int {
 	for i, k := range m.w.keys {
-		if k.Acct == acct && k.Token == tok && (k.Which == which || m.w.toks[tok].Kind == "native") {
+		if k.Acct == acct && k.Token == tok && (k.Which == which || (m.w.toks[tok].Kind == "native" && which != 2)) {
 			return new(big.Int).Sub(cur.Bals[i], prev.Bals[i])
 		}
 	}
@@ -150,14 +151,22 @@ func (m *Monitor) c05(op Op, ok bool, prev, cur Snap) {
 			m.fail("C05:id-reused-or-resurrected", "transfer %d (%s) is live again", id, info.settled)
 			continue
 		}
-		if !(op.Kind == "Send" && ok && id == prev.Ctr[0] && cur.Ctr[0] == prev.Ctr[0]+1) {
+		if !((op.Kind == "Send" || op.Kind == "SendP") && ok && id == prev.Ctr[0] && cur.Ctr[0] == prev.Ctr[0]+1) {
 			m.fail("C05:unexpected-new-transfer", "transfer %d appeared in a %s step (counter %d)", id, op.Kind, prev.Ctr[0])
 			continue
 		}
 		if t.Sender != op.Sender || t.Dest != op.Dest || t.Token != op.Token || t.Amount.Cmp(big.NewInt(op.Amount)) != 0 || t.Fee.Cmp(big.NewInt(op.Fee)) != 0 || pl[id][0] != "pool" {
 			m.fail("C05:payload-differs", "queued transfer %d is %+v, supplied %+v", id, t, op)
 		}
-		if d := m.balDelta(prev, cur, op.Sender, op.Token, 0); d == nil || d.Cmp(big.NewInt(-(op.Amount+op.Fee))) != 0 {
+		paidIn := 0 // base denom; a transfer started from the EVM with an ERC-20 token is paid in ERC-20
+		if op.Kind == "SendP" && m.w.toks[op.Token].Kind == "coin" {
+			paidIn = 2
+			m.evm[id] = true
+			if d := m.balDelta(prev, cur, op.Sender, op.Token, 0); d == nil || d.Sign() != 0 {
+				m.fail("C05:send-debit", "EVM-originated send moved the sender's bank balance by %v", d)
+			}
+		}
+		if d := m.balDelta(prev, cur, op.Sender, op.Token, paidIn); d == nil || d.Cmp(big.NewInt(-(op.Amount+op.Fee))) != 0 {
 			m.fail("C05:send-debit", "send of %d+%d debited the sender by %v", op.Amount, op.Fee, d)
 		}
 	}
@@ -207,7 +216,18 @@ func (m *Monitor) c05(op Op, ok bool, prev, cur Snap) {
 				m.fail("C05:cancel-batched", "transfer %d cancelled while in %s", id, ppl[id][0])
 			}
 			want := new(big.Int).Add(p.Amount, p.Fee)
-			if d := m.balDelta(prev, cur, p.Sender, p.Token, 0); d == nil || d.Cmp(want) != 0 {
+			refundIn := 0 // bank coins to the creator; ERC-20 tokens when the transfer was started from the EVM with an ERC-20 token
+			if m.evm[id] {
+				refundIn = 2
+				if d := m.balDelta(prev, cur, p.Sender, p.Token, 0); d == nil || d.Sign() != 0 {
+					m.fail("C05:refund-origin", "cancel of the EVM-originated transfer %d moved the creator's bank balance by %v", id, d)
+				}
+			} else if m.w.toks[p.Token].Kind == "coin" {
+				if d := m.balDelta(prev, cur, p.Sender, p.Token, 2); d == nil || d.Sign() != 0 {
+					m.fail("C05:refund-origin", "cancel of the message-originated transfer %d moved the creator's ERC-20 balance by %v", id, d)
+				}
+			}
+			if d := m.balDelta(prev, cur, p.Sender, p.Token, refundIn); d == nil || d.Cmp(want) != 0 {
 				m.fail("C05:refund-amount", "cancel of %d refunded %v, expected %v", id, d, want)
 			}
 		case op.Kind == "BatchExecuted" && ok && ppl[id][0] == fmt.Sprintf("batch:%d", op.Nonce) && p.Token == op.Token:
@@ -318,6 +338,19 @@ func (m *Monitor) c05(op Op, ok bool, prev, cur Snap) {
 		}
 	}
 	m.refundsExact(op, ok, prev, cur, pc, cc)
+	// the erc20 outgoing relation exists exactly for the live transfers that were started from the EVM with an ERC-20 token
+	rel := map[uint64]bool{}
+	for _, id := range cur.Relation {
+		rel[id] = true
+		if _, live := txs[id]; !live {
+			m.fail("C05:relation-of-settled-transfer", "outgoing relation of transfer %d exists although the transfer is not live", id)
+		}
+	}
+	for id := range txs {
+		if rel[id] != m.evm[id] {
+			m.fail("C05:relation-origin", "transfer %d: started from the EVM with an ERC-20 token = %v, outgoing relation present = %v", id, m.evm[id], rel[id])
+		}
+	}
 }
 
 // refundsExact: in a step that only settles bridge calls (an observed event or ExecuteClaim of a result) the user
